@@ -64,6 +64,7 @@ pub fn run_cell(ctx: &Ctx, plan: &LawPlan, min_n: u64) -> Option<LawOutcome> {
         ctx.class(&format!("{}:{}", cl, ft_name(cell)), 1);
     }
     ctx.class(&format!("origin:{}", plan.origin), 1);
+    ctx.class("atom_test_draws", out.atom_draws);
     if out.nontrivial {
         ctx.nontrivial(cell.hash64());
     } else {
